@@ -1,0 +1,76 @@
+//go:build verif
+
+// Contracts for the verifier in /verif (comment-only file; contributes no declarations).
+package limit
+
+// ---- arithmetic vocabulary: multiples of the window size (the epoch grid) ----
+//@ ghost func multipleOf(a int64, b int64) bool
+//@ axiom[mult-zero] forall(b, int64, multipleOf(0, b))
+//@ axiom[mult-sep]  forall(a, int64, forall(c, int64, forall(b, int64, multipleOf(a, b) && multipleOf(c, b) && a < c && b > 0 ==> a + b <= c)))
+//@ axiom[mult-next] forall(a, int64, forall(b, int64, multipleOf(a, b) ==> multipleOf(a + b, b)))
+
+// end of the grid window (E-w, E] that contains instant t
+//@ ghost func endOf(t int64, w int64) int64 = ite(floormul(t, w) == t, t, floormul(t, w) + w)
+// the allowance the code computes: ceil((allowed + spillover) * ratio)
+//@ ghost func allow(wd WindowData, sp int64) int64 = toint(ceil(real(wd.AllowedRequestCount + sp) * wd.QuotaAllocationRatio))
+
+// ---- ghost history of one limiter/group state ----
+//@ ghost field singleRateLimitState.gW int64                  // the window size this state is used with (fixed)
+//@ ghost field singleRateLimitState.gCnt gmap[int64]int64     // passes per grid window, indexed by the window's end
+//@ ghost field singleRateLimitState.gLastNow int64            // latest clock reading taken under the lock
+//@ ghost field singleRateLimitState.gPass int64               // passes since the current window was opened
+
+//@ monitor singleRateLimitState.mutex
+//@   self s
+//@   protects counter, spillover, windowData, windowEndTime, gCnt, gLastNow, gPass
+//@   invariant[grid]    s.gW > 0 && multipleOf(s.windowEndTime, s.gW) && s.windowData.WindowSize == s.gW
+//@   invariant[time]    0 <= s.gLastNow && s.gLastNow <= now() && s.windowEndTime - s.gW <= s.gLastNow && s.gLastNow <= s.windowEndTime
+//@   invariant[future]  forall(g, int64, g > s.windowEndTime ==> s.gCnt[g] == 0)
+//@   invariant[nonneg]  forall(g, int64, s.gCnt[g] >= 0) && s.counter >= 0
+//@   invariant[count]   s.gCnt[s.windowEndTime] <= s.counter
+//@   invariant[count-b] s.gLastNow <= s.windowEndTime - s.gW ==> s.gCnt[s.windowEndTime - s.gW] + s.gCnt[s.windowEndTime] <= s.counter
+//@   invariant[pass]    s.gPass == s.counter
+
+//@ func (*singleRateLimitState).TryToIncrement
+//@   prop C09
+//@   requires windowData.WindowSize == state.gW
+//@   modifies state.counter, state.spillover, state.windowData, state.windowEndTime, state.gCnt, state.gLastNow, state.gPass, now
+//@   on return when result.LimitSate == Proceed do state.gCnt[endOf(now(), state.gW)] = state.gCnt[endOf(now(), state.gW)] + 1
+//@   on return do state.gLastNow = now(); state.gPass = ite(state.windowEndTime != atlock(state.windowEndTime), 0, atlock(state.gPass)) + ite(result.LimitSate == Proceed, 1, 0)
+//@   ensures[bound] conc: result.LimitSate == Proceed ==> atlock(state.gCnt)[endOf(now(), state.gW)] < allow(windowData, state.spillover)
+//@   ensures[reject-only-if-used-up] seq: result.LimitSate == Block ==> state.gPass >= allow(windowData, state.spillover)
+//@   ensures[verdict] seq: result.LimitSate == Block || result.LimitSate == Proceed
+//@   ensures[counter] seq: result.NewCounter == state.counter
+
+//@ func (*singleRateLimitState).Counter
+//@   prop C09
+//@   modifies state.counter, state.spillover, state.windowEndTime, state.gLastNow, state.gPass, now
+//@   on return do state.gLastNow = now(); state.gPass = ite(state.windowEndTime != atlock(state.windowEndTime), 0, atlock(state.gPass))
+
+// ---- keying: one state object per (limiter, grouping, group) ----
+//@ ghost func wsOf(args RequestArguments) int64     // the window size a limiter key is configured with
+
+//@ monitor RateLimitState.mutex
+//@   self r
+//@   protects groupsStateByLimiter
+//@   invariant[map]      r.groupsStateByLimiter != nil
+//@   invariant[alloc]    forall(k, RequestArguments, in(k, r.groupsStateByLimiter) ==> r.groupsStateByLimiter[k] != nil && allocated(r.groupsStateByLimiter[k]))
+//@   invariant[distinct] forall(k1, RequestArguments, forall(k2, RequestArguments, in(k1, r.groupsStateByLimiter) && in(k2, r.groupsStateByLimiter) && k1 != k2 ==> r.groupsStateByLimiter[k1] != r.groupsStateByLimiter[k2]))
+//@   invariant[ws]       forall(k, RequestArguments, in(k, r.groupsStateByLimiter) ==> r.groupsStateByLimiter[k].gW == wsOf(k))
+
+//@ func (*RateLimitState).getLimiterState
+//@   prop C09
+//@   modifies mapof(state.groupsStateByLimiter), allof(singleRateLimitState.clock), allof(singleRateLimitState.counter), allof(singleRateLimitState.spillover), allof(singleRateLimitState.windowData), allof(singleRateLimitState.windowEndTime), allof(singleRateLimitState.mutex), allof(singleRateLimitState.gW), allof(singleRateLimitState.gCnt), allof(singleRateLimitState.gLastNow), allof(singleRateLimitState.gPass), now
+//@   on return when !atlock(in(requestArgs, state.groupsStateByLimiter)) do result.gW = wsOf(requestArgs)
+//@   ensures[keyed]  result != nil && result.gW == wsOf(requestArgs)
+//@   ensures[same-key] seq: in(requestArgs, state.groupsStateByLimiter) && result == state.groupsStateByLimiter[requestArgs]
+//@   ensures[stable] seq: old(in(requestArgs, state.groupsStateByLimiter)) ==> result == old(state.groupsStateByLimiter[requestArgs])
+//@   ensures[others-untouched] seq: forall(k, RequestArguments, k != requestArgs ==> (in(k, state.groupsStateByLimiter) <==> old(in(k, state.groupsStateByLimiter))) && state.groupsStateByLimiter[k] == old(state.groupsStateByLimiter[k]))
+//@   ensures[others-distinct] seq: forall(k, RequestArguments, k != requestArgs && in(k, state.groupsStateByLimiter) ==> state.groupsStateByLimiter[k] != result)
+//@   ensures[existing-untouched] seq: forall(o, *singleRateLimitState, o != result || old(in(requestArgs, state.groupsStateByLimiter)) ==> o.counter == old(o.counter) && o.gCnt == old(o.gCnt) && o.windowEndTime == old(o.windowEndTime) && o.gW == old(o.gW))
+
+//@ func (*RateLimitState).TryToIncrement
+//@   prop C09
+//@   requires windowData.WindowSize == wsOf(requestArgs)
+//@   ensures[invalid-key] seq: result1 != nil ==> result0.LimitSate == Proceed
+//@   ensures[isolation] seq: forall(k, RequestArguments, k != requestArgs && old(in(k, state.groupsStateByLimiter)) ==> state.groupsStateByLimiter[k] == old(state.groupsStateByLimiter[k]) && state.groupsStateByLimiter[k].counter == old(state.groupsStateByLimiter[k].counter) && state.groupsStateByLimiter[k].gCnt == old(state.groupsStateByLimiter[k].gCnt) && state.groupsStateByLimiter[k].windowEndTime == old(state.groupsStateByLimiter[k].windowEndTime))
